@@ -943,6 +943,8 @@ class Noise(EnvironmentFilter):
                 actions = new['actions']
                 noisy_actions = [ self._noises(a, rng, self._action_noise) for a in actions ]
                 new['actions'] = noisy_actions
+                if self._action_noise and 'action' in new and new['action'] in actions:
+                    new['action'] = noisy_actions[actions.index(new['action'])]
 
             if 'rewards' in new:
                 rewards = new['rewards']
